@@ -263,21 +263,23 @@ def configs(tier):
         for P in ((4, 6, 8, 16) if T else (4, 8)):
             half = P // 2
             wins = [(s, n) for s in range(half) for n in range(1, half - s + 1)]
-            if not T and P == 8:
-                wins = [(0, 4), (1, 2), (3, 1), (0, 1)]
+            if P == 8:
+                wins = [(0, 4), (1, 2), (3, 1), (0, 1)] + ([(2, 2), (1, 3)] if T else [])
+            if P == 6:
+                wins = [(0, 3), (1, 2), (2, 1)]
             if T and P == 16:
                 wins = [(0, 8), (2, 3), (7, 1), (0, 1), (5, 3)]
             for (s, n) in wins:
-                for r in (range(1, 7) if T else range(1, 5)):
-                    for nb in ((1, 2, 3, 4, 5) if T else (1, 2, 3)):
+                for r in ((1, 2, 3, 4, 6) if T else range(1, 5)):
+                    for nb in ((1, 2, 3, 5) if T else (1, 2, 3)):
                         for npol in (1, 2):
                             for source in (('ant', 'arr2', 'arr3') if T else ('ant', 'arr2')):
                                 for bits in (8, 4):
                                     for dig in (True, False):
-                                        for asc in ((True, False) if T else (True,)):
+                                        for asc in ((True, False) if (T and source == 'ant') else (True,)):
                                             out.append(dict(M=M, P=P, start_chan=s, num_chans=n, r=r, nb=nb, npol=npol,
                                                             source=source, bits=bits, digitize=dig, asc=asc,
-                                                            bpfs=[1, 2, 3] if T else [1, 2],
+                                                            bpfs=([1, 2, 3] if nb >= 3 else [1, 2]) if T else [1, 2],
                                                             delays={'ant': None, 'arr2': [0, 1], 'arr3': [0, 2, 1]}[source]))
     return out
 
